@@ -291,7 +291,7 @@ def ob_if_narrowing(symbolic_x):
         presets = {'B0': B0, 'B1': B1}
         clauses = []
         for ci, bname in ((0, 'B0'), (1, 'B1')):
-            shape = choose(8 if ci == 0 else 3, 'shape%d' % ci)
+            shape = choose(9 if ci == 0 else 3, 'shape%d' % ci)          # 8: vc or vc - two version tests, either of which lets a version in
             e1, s1 = vc('%da' % ci); presets['V%da' % ci] = s1
             b = ('var', bname)
             has_v = shape != 2
@@ -304,7 +304,7 @@ def ob_if_narrowing(symbolic_x):
             elif shape == 6: cond = ('bin', 'or', b, e1)
             else:
                 e2, s2 = vc('%db' % ci); presets['V%db' % ci] = s2
-                cond = ('bin', 'and', e1, e2)
+                cond = ('bin', 'and' if shape == 7 else 'or', e1, e2)
             # the clause as a predicate of an ARBITRARY version x (reference: version_compare on x; the Booleans are this run's)
             bv = B0 if ci == 0 else B1
             def truth(x, shape=shape, s1=s1, bv=bv, s2=(presets.get('V%db' % ci))):
@@ -314,6 +314,7 @@ def ob_if_narrowing(symbolic_x):
                 if shape == 2: return bv
                 if shape in (3, 4): return sym_and(v1, bv)
                 if shape in (5, 6): return sym_or(v1, bv)
+                if shape == 8: return sym_or(v1, U.version_compare(x, s2))
                 return sym_and(v1, U.version_compare(x, s2))
             clauses.append((cond, has_v, truth))
         prog = [('expr', ('call', 'probe', [('num', 0)], {})),
@@ -378,7 +379,7 @@ def obligations(tier):
         out.append(Obligation('check-to-range[%d]' % n, ob_checks(n, lv, 2), dict(checks=n, version_len=lv, x_len=2, alphabet='0-9ab.'), labels=('done',), max_paths=5000000))
     for n in (1,) if tier == 'quick' else (1, 2):
         out.append(Obligation('check-to-range-start[%d]' % n, ob_checks_start(n, 1, 1 if tier == 'quick' else 2, '019a.' if tier == 'quick' else '0123456789ab.'), dict(start='built from 2 checks', checks=n, version_len=1, x_len=1 if tier == 'quick' else 2, alphabet='019a.' if tier == 'quick' else '0-9ab.'), labels=('done',), max_paths=5000000))
-    out.append(Obligation('if-narrowing', ob_if_narrowing(tier != 'quick'), dict(chain='if / elif / else, probe in every block', clause='if: vc | not vc | B | vc and B | B and vc | vc or B | B or vc | vc and vc; elif: vc | not vc | B',
+    out.append(Obligation('if-narrowing', ob_if_narrowing(tier != 'quick'), dict(chain='if / elif / else, probe in every block', clause='if: vc | not vc | B | vc and B | B and vc | vc or B | B or vc | vc and vc | vc or vc; elif: vc | not vc | B',
                           version_test="symbolic operator (>= < ==) and version [0-2].(0|12.99); running version 1.12.99 (coredata.version)", project_requirement='>=0.5[05]'),
                           labels=('block1', 'block2', 'block3'), max_paths=3000000))
     out.append(Obligation('condition-with-min', ob_condmin(2, 2, 2), dict(lens=2, alphabet='0-9ab.'), labels=('true', 'false')))
